@@ -134,13 +134,16 @@ func (s *c18Scanner) extras(out *Scan) {
 		out.SharedTypes = append(out.SharedTypes, k)
 	}
 	sort.Strings(out.SharedTypes)
-	for _, site := range out.InstWriteSites { // "func ~> pkg.Type.field"
+	out.AliasFieldWrites = s.aliasFieldWrites(out)
+	for _, site := range append(append([]string{}, out.InstWriteSites...), out.AliasFieldWrites...) { // "func ~> pkg.Type.field"
 		k := strings.Index(site, " ~> ")
 		tf := site[k+4:]
 		if shared[tf[:strings.LastIndex(tf, ".")]] {
 			out.SharedTypeWrites = append(out.SharedTypeWrites, site)
 		}
 	}
+
+	out.SharedTypeWrites = dedupSorted(out.SharedTypeWrites)
 
 	// ---- package sync, go statements, channel operations ----
 	for _, path := range pkgPaths {
@@ -207,4 +210,188 @@ func (s *c18Scanner) extras(out *Scan) {
 	out.SyncUses = dedupSorted(out.SyncUses)
 	out.GoStmts = dedupSorted(out.GoStmts)
 	out.ChanOps = dedupSorted(out.ChanOps)
+}
+
+// aliasFieldWrites: a local variable is bound to a field of a receiver / struct-pointer parameter that is a slice, map or
+// pointer (x := p.f, x := p.f[:0], x := p.f[a:b]) and then written through (x[i] = ..., x.g = ..., *x = ...), handed to
+// append / copy / delete / clear, or passed to any other call: the backing store of the field may be written although no
+// assignment names the field (`buf := this.scratch[:0]; buf = append(buf, c)`).  Over-approximation (a call that only
+// reads the slice is reported too); only used for shared types, where the reviewed list is empty on the unchanged tree.
+func (s *c18Scanner) aliasFieldWrites(out *Scan) []string {
+	initFn := map[string]bool{}
+	for _, f := range out.InitFuncs {
+		initFn[f] = true
+	}
+	var res []string
+	var pkgPaths []string
+	for path := range s.pkgs {
+		pkgPaths = append(pkgPaths, path)
+	}
+	sort.Strings(pkgPaths)
+	for _, path := range pkgPaths {
+		p := s.pkgs[path]
+		for _, file := range p.files {
+			for _, d := range file.Decls {
+				fd, ok := d.(*ast.FuncDecl)
+				if !ok || fd.Body == nil {
+					continue
+				}
+				name := c18FuncName(p, fd)
+				if initFn[name] || strings.HasPrefix(fd.Name.Name, "New") || strings.HasPrefix(fd.Name.Name, "new") {
+					continue
+				}
+				info := p.info
+				paramStruct := map[types.Object]string{}
+				addParams := func(fl *ast.FieldList) {
+					if fl == nil {
+						return
+					}
+					for _, f := range fl.List {
+						for _, n := range f.Names {
+							po := info.Defs[n]
+							if po == nil {
+								continue
+							}
+							t := po.Type()
+							if pt, ok := t.Underlying().(*types.Pointer); ok {
+								t = pt.Elem()
+							}
+							if named, ok := t.(*types.Named); ok && isLib(named.Obj().Pkg()) {
+								if _, isS := named.Underlying().(*types.Struct); isS {
+									paramStruct[po] = relOf(named.Obj().Pkg()) + "." + named.Obj().Name()
+								}
+							}
+						}
+					}
+				}
+				addParams(fd.Recv)
+				addParams(fd.Type.Params)
+				if len(paramStruct) == 0 {
+					continue
+				}
+				alias := map[types.Object]string{}
+				// the field (of a struct parameter) or alias an expression denotes after stripping slicing and parentheses
+				var fieldOf func(e ast.Expr) string
+				fieldOf = func(e ast.Expr) string {
+					switch x := e.(type) {
+					case *ast.ParenExpr:
+						return fieldOf(x.X)
+					case *ast.SliceExpr:
+						return fieldOf(x.X)
+					case *ast.Ident:
+						if o := info.Uses[x]; o != nil {
+							return alias[o]
+						}
+					case *ast.SelectorExpr:
+						if id, ok := x.X.(*ast.Ident); ok {
+							if tn, ok := paramStruct[info.Uses[id]]; ok {
+								if sel, ok := info.Selections[x]; ok && sel.Kind() == types.FieldVal {
+									switch sel.Type().Underlying().(type) {
+									case *types.Slice, *types.Map, *types.Pointer:
+										return tn + "." + x.Sel.Name
+									}
+								}
+							}
+						}
+					}
+					return ""
+				}
+				// root alias of a store target x[i], x.g, *x
+				var rootAlias func(e ast.Expr) string
+				rootAlias = func(e ast.Expr) string {
+					switch x := e.(type) {
+					case *ast.ParenExpr:
+						return rootAlias(x.X)
+					case *ast.IndexExpr:
+						return rootAlias(x.X)
+					case *ast.StarExpr:
+						return rootAlias(x.X)
+					case *ast.SliceExpr:
+						return rootAlias(x.X)
+					case *ast.SelectorExpr:
+						return rootAlias(x.X)
+					case *ast.Ident:
+						if o := info.Uses[x]; o != nil {
+							return alias[o]
+						}
+					}
+					return ""
+				}
+				rec := func(key string) {
+					if key != "" {
+						res = append(res, name+" ~> "+key)
+					}
+				}
+				for pass := 0; pass < 2; pass++ {
+					ast.Inspect(fd.Body, func(n ast.Node) bool {
+						switch x := n.(type) {
+						case *ast.AssignStmt:
+							if len(x.Lhs) == len(x.Rhs) {
+								for i, l := range x.Lhs {
+									if id, ok := l.(*ast.Ident); ok && id.Name != "_" {
+										o := info.Defs[id]
+										if o == nil {
+											o = info.Uses[id]
+										}
+										if o != nil {
+											if _, isParam := paramStruct[o]; !isParam {
+												if k := fieldOf(x.Rhs[i]); k != "" {
+													alias[o] = k
+												}
+											}
+										}
+									}
+								}
+							}
+							if pass == 1 {
+								for _, l := range x.Lhs {
+									if _, plain := l.(*ast.Ident); !plain {
+										rec(rootAlias(l))
+									}
+								}
+							}
+						case *ast.IncDecStmt:
+							if pass == 1 {
+								if _, plain := x.X.(*ast.Ident); !plain {
+									rec(rootAlias(x.X))
+								}
+							}
+						case *ast.CallExpr:
+							if pass == 1 {
+								if id, ok := x.Fun.(*ast.Ident); ok {
+									if _, isB := info.Uses[id].(*types.Builtin); isB {
+										switch id.Name {
+										case "append", "copy", "delete", "clear":
+											if len(x.Args) > 0 {
+												if a, ok := x.Args[0].(*ast.Ident); ok {
+													if o := info.Uses[a]; o != nil {
+														rec(alias[o])
+													}
+												} else if se, ok := x.Args[0].(*ast.SliceExpr); ok {
+													rec(rootAlias(se))
+												}
+											}
+										}
+										return true // len, cap, ... only read
+									}
+								}
+								for _, a := range x.Args {
+									switch y := a.(type) {
+									case *ast.Ident:
+										if o := info.Uses[y]; o != nil {
+											rec(alias[o])
+										}
+									case *ast.SliceExpr:
+										rec(rootAlias(y))
+									}
+								}
+							}
+						}
+						return true
+					})
+				}
+			}
+		}
+	}
+	return dedupSorted(res)
 }
